@@ -433,6 +433,20 @@ func (fc *FnCtx) applyContract(s *State, x *ssa.Call, ct *Contract, callee *ssa.
 		pkg = callee.Pkg.Pkg
 	}
 	env := &Env{fc: fc, names: bind, heap: s.heap, oldNames: bind, oldHeap: s.heap, pkgOverride: pkg}
+	// 0. hints of the caller anchored right before this call; the arguments are arg0, arg1, ...
+	if fc.ct != nil && s.depth == 0 {
+		for _, h := range fc.ct.Hints {
+			if h.Where != "before:"+site {
+				continue
+			}
+			henv := &Env{fc: fc, names: map[string]Val{}, cellsAt: s, heap: s.heap, oldNames: fc.entry, oldHeap: fc.oldHeap, pos: x.Pos(),
+				nalloc0: fc.nalloc0, nobj0: fc.nobj0, bound: map[string]Val{}}
+			for i, a := range args {
+				henv.bound[fmt.Sprintf("arg%d", i)] = a
+			}
+			fc.applyHint(s, henv, h, "before "+site)
+		}
+	}
 	// 1. preconditions
 	for _, r := range ct.Requires {
 		g := fc.evalSpecBool(env, r.E)
